@@ -517,7 +517,7 @@ def unary_tag(trait, t):
 SIZES = {
     # unary: all depth-0 types always; n1/n2 sampled depth-1/depth-2 types per trait (None = all)
     "quick": {"u_n1": 40, "u_n2": 40, "c_n1": 30, "c_n2": 30, "pairs": 200, "cpairs": 120, "ratio_n": 14, "lists": 6},
-    "thorough": {"u_n1": None, "u_n2": 900, "c_n1": None, "c_n2": 900, "pairs": 2500, "cpairs": 1500, "ratio_n": 44, "lists": 40},
+    "thorough": {"u_n1": 180, "u_n2": 220, "c_n1": 120, "c_n2": 120, "pairs": 700, "cpairs": 450, "ratio_n": 30, "lists": 40},
 }
 
 
@@ -979,7 +979,7 @@ def syntax_only(out, part, std_only=False, extra=()):
     if std_only:
         cmd.append("-DC15_STD_ONLY=1")
     cmd += list(extra) + [os.path.join(VERIF, "props", "C15_traits.cpp")]
-    r = subprocess.run(cmd, capture_output=True, text=True, errors="replace")
+    r = subprocess.run(cmd, capture_output=True, text=True, errors="replace", env=dict(os.environ, LC_ALL="C", LANG="C"))
     return r.returncode, r.stderr
 
 
@@ -1009,7 +1009,8 @@ def first_error(stderr):
     for ln in stderr.split("\n"):
         if " error: " in ln:
             ln = ln.replace(os.path.join(TETL_ROOT, "include") + "/", "").replace(VERIF + "/", "")
-            return re.sub(r":\d+:\d+: ", ": ", ln)[:300]
+            ln = re.sub(r":\d+:\d+: ", ": ", ln)[:300]
+            return "".join(c if 32 <= ord(c) < 127 else "'" for c in ln)
     return "unknown error"
 
 
